@@ -14,7 +14,9 @@ import (
 // in ".*" covers a whole package. Each entry carries the reason.
 var TrustedTotal = map[string]string{
 	// error construction and logging
+	"(*sync.Once).Do":              "runs its argument at most once; the argument is a module function literal, analysed as a reachable function of its own",
 	"errors.New":                   "allocates an error value",
+	"errors.Is":                    "walks the Unwrap chain comparing identities; the Is/Unwrap methods it may call belong to error values built by errors.New, fmt.Errorf and pkg/errors, which are total",
 	"fmt.Errorf":                   "formatting; String/Error methods of operands assumed total (A3)",
 	"fmt.Sprintf":                  "formatting (A3)",
 	"log.Printf":                   "formatting to the standard logger (A3)",
